@@ -1135,6 +1135,10 @@ class ServiceInstance:
         self._task.cancel()
         asyncio.create_task(wait_cancelled(self._task))
         self._task = None
+        # a stopped instance must not answer FindService anymore. The task only clears
+        # this when it gets to handle the cancellation (and never if it already
+        # finished, i.e. for non-cyclic instances)
+        self._can_answer_offers = False
 
         # cyclic tasks send stop when they are cancelled
         if not self.timings.CYCLIC_OFFER_DELAY:
